@@ -29,12 +29,7 @@ TAGS = {0: ("numpy", "table"), 1: ("numba", "table"), 2: ("numpy", "onthefly"), 
 WEIGHTS = [0.0, 0.25, 0.5, 0.75]
 
 # defects of the unchanged /repo found while building this check (to be moved to known_findings.json)
-PROPOSED_KNOWN = [
-    {"id": "C05-spread-fh-len2", "property": "C05",
-     "what": "Spread(engine='numpy', fh=...) without interpolation and dimsd[0] == 2: `len(fh(0, 0)) == 2` takes the "
-             "length-2 index array for an (indices, dindices) pair, sets interp=True and returns zeros "
-             "(also Radon2D/3D(onthefly=True, interp=False, engine='numpy') with 2 offsets); table variant and numba are correct"},
-]
+PROPOSED_KNOWN = []   # the fh-len2 defect found while building was repaired in /repo (commit 2259f71)
 
 
 # ------------------------------------------------------------------ build
